@@ -158,7 +158,7 @@ def rule_bind(ctx, classes=SKETCH_CLASSES):
 # attr-type
 # ---------------------------------------------------------------------------
 
-def rule_attr_type(ctx, classes=SKETCH_CLASSES, only=None, narrowing=True):
+def rule_attr_type(ctx, classes=SKETCH_CLASSES, only=None, narrowing=True, methods=None):
     """The NumPy scalar constructor of a bound attribute holds every value of the narrowest kernel parameter it feeds
     (that parameter's type is the attribute's intended domain): a narrower constructor silently truncates inputs
     (e.g. seeds >= 2**32) before any kernel sees them."""
@@ -170,7 +170,7 @@ def rule_attr_type(ctx, classes=SKETCH_CLASSES, only=None, narrowing=True):
         consumers = {}
         for mname in set(cls.methods) | {m for c in cls.mro() for m in c.methods}:
             meth = cls.resolve(mname)
-            if meth is None:
+            if meth is None or (methods is not None and mname not in methods and mname != "__init__"):
                 continue
             for k in F.calls_from(meth):
                 if not k.callee.is_kernel:
